@@ -346,6 +346,8 @@ pub fn plan(tier: Tier) -> Plan {
         checks.push(hist::<H4>("edge-lattice", 2));
         checks.push(hist::<H10>("lattice3", 2));
     }
+    checks.push(cross(AddHistSpec::<H1> { family: "edge-lattice", _h: PhantomData }, 3));
+    checks.push(cross(AddHistSpec::<H3> { family: "lattice3", _h: PhantomData }, 3));
     #[cfg(feature = "nightly")]
     {
         checks.push(sweep::<K1>("edge-lattice"));
